@@ -481,6 +481,7 @@ TRUSTED_BASE = [
 # regeneration of the generated Lean files from /repo's current tree (the translator half of the tie)
 
 WRAPPER_USES = []
+CLASS_PANICS = []
 XML_CONSTS = {}
 GRAMMAR_DIFFS = {"xml": [], "xpath": []}
 
@@ -506,7 +507,10 @@ def regenerate():
     problems = []
     tabs = extract.char_tables()
     extract.write_char_tables(tabs)
-    global WRAPPER_USES, XML_CONSTS, GRAMMAR_DIFFS
+    global WRAPPER_USES, XML_CONSTS, GRAMMAR_DIFFS, CLASS_PANICS
+    CLASS_PANICS = list(tabs.get("_panics", []))
+    for kind, cp in CLASS_PANICS:
+        problems.append("the character-class predicate `%s` panics on U+%04X" % (kind, cp))
     gx = gp = None
     try:
         gx, gp = translate.translate_all()
